@@ -62,9 +62,11 @@ CLAIMED = {
     "C03": dict(
         text="Coq theorems C03_step / C03_hist_abstract (over ANY finite sequence of pool steps the value reserve0*reserve1/supply^2 never decreases and the supply stays positive; induction), "
              "C03_provision_is_step / C03_withdrawal_is_step / C03_swap_is_step (the premises of each step kind are what C05/C04/C01 prove about the real formulas), C03_sys_swap / "
-             "C03_sys_withdraw / C03_sys_provide (the pair handlers of the world model ARE pool steps on the actual balances), C03_refuted (known finding KF-ceil-window).  PARTIAL: the "
-             "composition over run (several pairs per route) is not assembled into one theorem; "
-             "it is monitored on the real contracts after every step of multi-actor random, extreme and router histories (swaps in kf_c01 exempt and counted).",
+             "C03_sys_withdraw / C03_sys_provide (the pair handlers of the world model ARE pool steps on the actual balances), C03_refuted (known finding KF-ceil-window); over run: C03_swapless_tx / C03_swapless_history (over ANY history of user-submitted provisions, withdrawals, transfers, mints, burns, donations, factory operations and rejected calls, "
+             "from a well-formed solvent start, no pair's value ever decreases), C03_direct_swap_tx / C03_hook_swap_tx (a direct swap outside kf_c01 lowers no pair's value), C03_tx_path / C03_history_path (every transaction moves every pair along a finite path of pool steps and class swaps).  "
+             "C03_history (ASSEMBLED: over any history of user-submitted operations incl. router routes of any length, from a well-formed solvent start, in which no successful swap - direct, hooked or a hop of a route, judged on the reserves at the moment it is priced - "
+             "falls in kf_c01, the value of every pair with positive supply never decreases; non-vacuity by C03_history_example).  "
+             "Also monitored on the real contracts after every step of multi-actor random, extreme and router histories (swaps in kf_c01 exempt and counted).",
         design_ref="DESIGN.md section 8 (C03), section 9"),
     "C04": dict(
         text="Coq theorems C04_fn (r_i*a/T - r_i/10^18 - 1 < x_i <= r_i*a/T as cross-multiplied sandwich), C04_le_reserve, C04_total over the withdrawal arithmetic, and C04_structure / "
